@@ -345,8 +345,11 @@ class Ctx:
               "violations": len(self.violations), "notes": self.notes,
               "known_findings_hit": [k["fingerprint"] for k in self.known_hits]}
         if self.replay is None:
-            os.makedirs(os.path.join(VERIF, "evidence"), exist_ok=True)
-            with open(os.path.join(VERIF, "evidence", self.id + ".json"), "w") as f:
+            # evidence/ is only ever written from runs against /repo itself; runs against a scratch worktree
+            # (VERIF_REPO=..., used to try the checks on mutants) leave their evidence under .work/
+            evd = os.path.join(VERIF, "evidence") if os.path.realpath(REPO) == "/repo" else os.path.join(VERIF, ".work", "mutant-evidence")
+            os.makedirs(evd, exist_ok=True)
+            with open(os.path.join(evd, self.id + ".json"), "w") as f:
                 json.dump(ev, f, indent=1, default=str)
         for k in self.known_hits:
             print("KNOWN-FINDING: property=%s %s" % (self.id, k["what"]))
